@@ -219,4 +219,43 @@ error in the interpreter (`int("-0x0")`) and `0u` in the compiled runner -/
 example : uintOfLit [45, 48, 120, 48] = .error .valueError ∧ transpiledUint [45, 48, 120, 48] = .ok 0 := by
   constructor <;> rfl
 
+/-! #### "UTF-8 for unescaped characters" -/
+
+/-- the octets `utf8Encode` gives (what `celbytes` yields for unescaped characters and raw bodies, and
+what `spelledBytes` specifies) are UTF-8: the strict decoder reads every encodable text back, for ALL texts -/
+theorem utf8_decode_encode (s : Text) (b : Bytes) (h : utf8Encode s = .ok b) : utf8Decode b = .ok s :=
+  utf8_roundtrip s b h
+
+/-- … and exactly the texts without lone surrogates are encodable -/
+theorem utf8_encodable (s : Text) (h : s.all isScalar = true) : ∃ b, utf8Encode s = .ok b := by
+  induction s with
+  | nil => exact ⟨[], rfl⟩
+  | cons c cs ih =>
+    simp only [List.all_cons, Bool.and_eq_true] at h
+    obtain ⟨b, hb⟩ := ih h.2
+    have hc : ∃ bc, utf8Cp c = .ok bc := by
+      have := h.1
+      simp only [isScalar, isCp, Bool.and_eq_true, decide_eq_true_eq, Bool.not_eq_true'] at this
+      unfold utf8Cp
+      by_cases h1 : c < 0x80
+      · exact ⟨[c], by simp [h1]⟩
+      · by_cases h2 : c < 0x800
+        · exact ⟨[0xC0 + c / 64, 0x80 + c % 64], by simp [h1, h2]⟩
+        · by_cases h3 : c < 0x10000
+          · exact ⟨[0xE0 + c / 4096, 0x80 + c / 64 % 64, 0x80 + c % 64], by simp [h1, h2, h3, this.2]⟩
+          · exact ⟨[0xF0 + c / 262144, 0x80 + c / 4096 % 64, 0x80 + c / 64 % 64, 0x80 + c % 64], by simp [h1, h2, h3, this.1]⟩
+    obtain ⟨bc, hbc⟩ := hc
+    exact ⟨bc ++ b, by simp [utf8Encode, hbc, hb, bind, Except.bind, pure, Except.pure]⟩
+
+/-! #### any mixture of spellings -/
+
+/-- "with the escapes \\a … \\ooo … evaluates to exactly the spelled sequence of code points", constructively:
+for EVERY sequence of pieces, each spelled in any listed form (the character itself, `\\e`, `\\xHH`, `\\uHHHH`,
+`\\UHHHHHHHH`, `\\ooo`, with valid digits), the literal evaluates to the list of the pieces' values — so
+`spelled` is defined on all such bodies and `celstr_eq_spelled` is not vacuous for any escape form. -/
+theorem literal_any_spelling (st : Style) (hraw : st.raw = false) (ps : List Piece) (hv : ∀ p ∈ ps, p.valid)
+    (hq : headOk st.quote (renderAll ps)) :
+    celstr (wrapStr st (renderAll ps)) = .ok (ps.map Piece.value) :=
+  celstr_eq_spelled st hraw _ _ hq (spelled_renderAll ps _ hv (Nat.le_refl _))
+
 end Cel.Props.C07
